@@ -11,6 +11,7 @@ package fasthttp
 import (
 	"bufio"
 	"bytes"
+	"errors"
 	"fmt"
 	"io"
 	"mime/multipart"
@@ -547,12 +548,15 @@ type vpC35History struct {
 	stream      bool
 	noPreParse  bool
 	interactive bool
+	// writeFailAt >= 0 (non-interactive histories): the client is gone for writing - the server's Write fails once
+	// this many response bytes went out (0: the first response cannot be written at all)
+	writeFailAt int
 	reqs        []*vpC35Req
 }
 
 func (h *vpC35History) String() string {
 	var sb strings.Builder
-	fmt.Fprintf(&sb, "StreamRequestBody=%v DisablePreParseMultipartForm=%v interactive=%v", h.stream, h.noPreParse, h.interactive)
+	fmt.Fprintf(&sb, "StreamRequestBody=%v DisablePreParseMultipartForm=%v interactive=%v writeFailAt=%d", h.stream, h.noPreParse, h.interactive, h.writeFailAt)
 	for i, r := range h.reqs {
 		fmt.Fprintf(&sb, "\n    req %d: %s callForm=%v twice=%v formValue=%v readBody=%v removeOwn=%v limit=%d body=%d bytes", i, r.kind, r.callForm, r.callTwice, r.formValue, r.readBody, r.removeOwn, r.limit, len(r.body))
 		if r.form != nil {
@@ -580,6 +584,10 @@ func vpC35GenHistory(t *rapid.T) *vpC35History {
 	h.stream = rapid.IntRange(0, 2).Draw(t, "stream") != 0
 	h.noPreParse = rapid.Bool().Draw(t, "noPreParse")
 	h.interactive = rapid.IntRange(0, 3).Draw(t, "interactive") == 0
+	h.writeFailAt = -1
+	if !h.interactive && rapid.IntRange(0, 4).Draw(t, "writefail") == 0 {
+		h.writeFailAt = rapid.SampledFrom([]int{0, 0, 10, 100, 150}).Draw(t, "writefailat")
+	}
 	n := rapid.IntRange(2, 4).Draw(t, "nReq")
 	for i := 0; i < n; i++ {
 		r := &vpC35Req{}
@@ -677,10 +685,18 @@ type vpC35Conn struct {
 	r      *bytes.Reader
 	w      bytes.Buffer
 	closed bool
+	failAt int // >= 0: Write fails once this many bytes were written
 }
 
-func (c *vpC35Conn) Read(p []byte) (int, error)       { return c.r.Read(p) }
-func (c *vpC35Conn) Write(p []byte) (int, error)      { return c.w.Write(p) }
+func (c *vpC35Conn) Read(p []byte) (int, error) { return c.r.Read(p) }
+func (c *vpC35Conn) Write(p []byte) (int, error) {
+	if c.failAt >= 0 && c.w.Len()+len(p) > c.failAt {
+		n := max(c.failAt-c.w.Len(), 0)
+		c.w.Write(p[:n])
+		return n, errors.New("vpC35: the client is gone (injected write error)")
+	}
+	return c.w.Write(p)
+}
 func (c *vpC35Conn) Close() error                     { c.closed = true; return nil }
 func (c *vpC35Conn) LocalAddr() net.Addr              { return &net.TCPAddr{IP: net.IPv4(127, 0, 0, 1), Port: 80} }
 func (c *vpC35Conn) RemoteAddr() net.Addr             { return &net.TCPAddr{IP: net.IPv4(127, 0, 0, 1), Port: 5353} }
@@ -774,7 +790,7 @@ func vpC35Serve(h *vpC35History, dir string) (obs []*vpC35Obs, afterClose []stri
 		for _, r := range h.reqs {
 			all.Write(r.wire)
 		}
-		conn := &vpC35Conn{r: bytes.NewReader(all.Bytes())}
+		conn := &vpC35Conn{r: bytes.NewReader(all.Bytes()), failAt: h.writeFailAt}
 		srv.ServeConn(conn) //nolint:errcheck
 		br := bufio.NewReader(&conn.w)
 		for {
